@@ -47,7 +47,9 @@ Cont(k, s, n, sp) == [kind |-> k, stmt |-> s, nest |-> n, sp |-> sp]
 Valid(c, pkg) ==
   /\ (c.kind = "pmeth" => pkg = "d")
   /\ (c.kind = "pkgdecl" => c.stmt \in {"lit", "addrLit", "new", "varZero", "varPtr", "elidedVal"} /\ c.nest = "none")
-  /\ (c.stmt \in {"onU", "lit2", "new2", "varZero2"} => c.sp = "direct")
+  /\ (c.stmt \in {"lit2", "new2", "varZero2"} => c.sp = "direct")
+  /\ (c.stmt = "onU" => c.sp \in {"direct", "fnalias"})
+  /\ (c.sp = "fnalias" => c.kind \in {"ctor1", "other", "init", "ometh"})
   /\ (c.sp = "paren" => c.stmt \in {"new", "varZero", "varPtr", "varBlank"})
   /\ (c.sp \in {"rename", "alias3"} => pkg = "u")
 
@@ -92,6 +94,11 @@ InitProg ==
           s \in Stmts \ {"onU"}, sp \in Spells :
           /\ Valid(Cont(k, s, "none", sp), pkg)
           /\ prog = [ann |-> ann, pkg |-> pkg, files |-> OneFile(Cont(k, s, "none", sp))]
+  \/ /\ Mode = "localalias"   \* C13: two functions declare the same local alias name for different types
+     /\ \E ann \in {a \in Anns : a.csp = 1 /\ ~a.imm /\ a.ctors # <<>>}, pkg \in {"d", "u"}, k1 \in {"other", "init"}, k2 \in {"other", "ctor1", "ometh"},
+          s1 \in {"onU", "lit"}, s2 \in {"onU", "lit", "new", "varZero", "addrLit"} :
+          /\ s1 # s2
+          /\ prog = [ann |-> ann, pkg |-> pkg, files |-> <<<<Cont(k1, s1, "none", "fnalias"), Cont(k2, s2, "none", "fnalias")>>>>]
   \/ /\ Mode = "seq2"
      /\ \E ann \in SeqAnns, pkg \in {"d", "u"} : \E c1 \in SeqCont(pkg), c2 \in SeqCont(pkg) :
           \E fs \in Splits(<<c1, c2>>) : UniqueCtors(fs) /\ prog = [ann |-> ann, pkg |-> pkg, files |-> fs]
@@ -121,7 +128,7 @@ EnterDecl ==
   /\ ph' = "visit"
   /\ UNCHANGED <<prog, fi, ci, diags>>
 
-Seen(c) == ~("NoUnalias" \in Deviations /\ c.sp \in {"alias", "alias3"})
+Seen(c) == ~("NoUnalias" \in Deviations /\ c.sp \in {"alias", "alias3", "fnalias"})
 VisitVerdict(c) ==
   LET code == CtorCode(c.stmt)
       ownPkg == prog.pkg = "d" \/ "CtorAnyPkg" \in Deviations
